@@ -331,6 +331,16 @@ def reflection(ctx):
     return sigma
 
 
+def with_equal_sides(fn):
+    """a copy of the solver in which the right state is the left one from the first statement on (rhor = rhol; pr = pl; ur = ul prepended): every test is then evaluated
+    on the tie it meets when both sides are equal - a renaming applied after a general evaluation would settle `a <= b` at a == b by the prover's convention for indicators,
+    which ignores ties"""
+    params = [a.arg for a in fn.args.args]
+    pre = [ast.parse('%s = %s' % (r_, l_)).body[0] for l_, r_ in (('rhol', 'rhor'), ('pl', 'pr'), ('ul', 'ur')) if l_ in params and r_ in params]
+    new = ast.FunctionDef(name=fn.name, args=fn.args, body=pre + list(fn.body), decorator_list=[], lineno=fn.lineno)
+    return ast.fix_missing_locations(new)
+
+
 def equal_sides(ctx):
     def sigma(name):
         m = {'rhor': 'rhol', 'pr': 'pl', 'ur': 'ul'}
@@ -449,10 +459,12 @@ def rule_loop_free(chk, funcs, names):
             eq = equal_sides(ctx)
             if nm in COMMON_STATE_PROVED:
                 okc = True
+                ev_eq = S.Evaluator(ctx, with_equal_sides(fn), helpers={'SIGN': funcs['SIGN']}, define_terms=1)          # ties decided as the code decides them
+                ev_eq.run()
                 for k, want in (('result[0]', 'pl'), ('result[1]', 'ul')):
-                    v = ev.result_of_returns(lambda val, env, k=k: env.get(k, Poly()))
+                    v = ev_eq.result_of_returns(lambda val, env, k=k: env.get(k, Poly()))
                     okc = okc and ctx.prove_zero(ctx.rename(v, eq) - ctx.var(want))[0]
-                rc = ev.result_of_returns(lambda val, env: val)
+                rc = ev_eq.result_of_returns(lambda val, env: val)
                 okc = okc and ctx.prove_zero(ctx.rename(rc, eq))[0]
                 chk.decide(okc, 'common-state', nm, node=funcs[nm], file=RS, func=nm,
                            detail_bad='with identical left and right states the solver no longer returns (p, u) of that state with return code 0',
@@ -568,7 +580,7 @@ def rule_iterative(chk, funcs, names):
 def rule_common_state_iterative(chk, funcs, names):
     """with equal sides the initial guess is the common pressure and one iteration maps it to itself"""
     for nm in names:
-        fn = stripped(funcs[nm])
+        fn = with_equal_sides(stripped(funcs[nm]))          # the right state is the left one from the start: ties are decided as the code decides them
         ctx = S.Ctx(max_terms=40000, seconds=BUDGET)
         ctx.positive.update(['pl', 'rhol', 'gamma'])
         helpers = {'SIGN': funcs['SIGN'], 'prefun_exact': prefun_hook(funcs)}
@@ -599,6 +611,24 @@ def rule_common_state_iterative(chk, funcs, names):
                 if not ctx.prove_zero(after - init[v])[0]:
                     bad.append(v)
             pkey = [v for v in carried if ctx.prove_zero(init[v] - ctx.var('pl'))[0]]
+            # ... and the same once more with the first pass written out from the actual initial state (equal sides prepended, the loop header and its break dropped): the
+            # tests of that pass then meet their ties as constants and are decided exactly as the code decides them (`p <= pk` at p == pk takes the `<=` branch) - the
+            # generic analysis above settles a tie on a loop-carried symbol by the prover's convention for indicators
+            try:
+                pre_, loop_, post_ = L.split(fn)
+                body1 = [s_ for s_ in loop_.body if not (isinstance(s_, ast.If) and any(isinstance(x, (ast.Break, ast.Continue)) for x in ast.walk(s_)))]
+                head1 = [ast.parse('%s = 0' % loop_.target.id).body[0]] if isinstance(loop_, ast.For) and isinstance(loop_.target, ast.Name) else []
+                ctx1 = S.Ctx(max_terms=40000, seconds=BUDGET)
+                ctx1.positive.update(['pl', 'rhol', 'gamma'])
+                ev0 = S.Evaluator(ctx1, ast.fix_missing_locations(ast.FunctionDef(name=nm, args=fn.args, body=list(pre_), decorator_list=[], lineno=1)), helpers=helpers)
+                ev0.run()
+                ev1 = S.Evaluator(ctx1, ast.fix_missing_locations(ast.FunctionDef(name=nm, args=fn.args, body=list(pre_) + head1 + body1, decorator_list=[], lineno=1)), helpers=helpers)
+                ev1.run()
+                for v in pkey:
+                    if v in ev0.env and v in ev1.env and not ctx1.prove_zero(ev1.env[v] - ev0.env[v])[0]:
+                        bad.append(v + ' (first pass written out)')
+            except (S.Unsupported, S.Budget):
+                pass            # the generic analysis stands
             chk.decide(bool(pkey) and not bad, 'common-state', nm + ':fixed-point', node=an.loop, file=RS, func=nm,
                        detail_bad='with identical sides the iteration does not start at / stay at the common pressure (variables that move: %s; pressure iterate found: %s)' % (bad, pkey),
                        detail_ok='initial guess of %s is pl and one iteration maps it to itself' % pkey)
@@ -1018,6 +1048,37 @@ def rule_success(chk, funcs, names):
             chk.decide(nsucc > 0 and bad_em is None, 'success-implies-converged', nm + ':empty-loop-reports-failure', node=succ[0], file=RS, func=nm,
                        detail_bad='with niter <= 0 the body never runs, %s keeps its initial value %s and the path to `return 0` with %s is taken: success is reported with p = 0.0 and an unset star velocity'
                                   % (ivar, i0, shown(bad_em) if bad_em else ''), detail_ok='%s = %s never reaches `return 0` for any niter <= 0' % (ivar, i0))
+        # van Leer's iteration stops on the relative change of the pressure iterate: |p_new - p_old|/p_new < tol, p_old being the copy taken at the top of the pass
+    vl0 = funcs.get('van_leer')
+    if vl0 is not None:
+        from verif_static import norm as N2
+        pre0, loop0, post0 = L.split(stripped(vl0))
+        res0 = [a for s_ in post0 for a in ast.walk(s_) if isinstance(a, ast.Assign) and compact(a.targets[0]) == 'result[0]' and isinstance(a.value, ast.Name)]
+        pv0 = res0[0].value.id if len(res0) == 1 else None
+        saved0 = [a.targets[0].id for a in loop0.body[:2] if isinstance(a, ast.Assign) and isinstance(a.targets[0], ast.Name) and isinstance(a.value, ast.Name) and a.value.id == pv0]
+        cmp0 = [a.value for a in ast.walk(loop0) if isinstance(a, ast.Assign) and isinstance(a.value, ast.Compare) and len(a.value.ops) == 1 and 'tol' in compact(a.value)] + \
+               [i_.test for i_ in ast.walk(loop0) if isinstance(i_, ast.If) and isinstance(i_.test, ast.Compare) and 'tol' in compact(i_.test) and any(isinstance(x, ast.Break) for x in ast.walk(i_))]
+        okv = False
+        if pv0 and len(saved0) == 1 and len(cmp0) == 1:
+            c0 = cmp0[0]
+            l0, op0, r0 = c0.left, c0.ops[0], c0.comparators[0]
+            if compact(l0) == 'tol':
+                l0, r0 = r0, l0
+                op0 = {ast.Gt: ast.Lt(), ast.GtE: ast.LtE()}.get(type(op0), op0)
+            q0 = saved0[0]
+            okv = isinstance(op0, (ast.Lt, ast.LtE)) and compact(r0) == 'tol' and any(N2.same(l0, f_ % dict(p=pv0, q=q0)) for f_ in (
+                'abs(%(p)s - %(q)s)/%(p)s', 'abs(%(q)s - %(p)s)/%(p)s', 'abs((%(p)s - %(q)s)/%(p)s)', 'abs((%(q)s - %(p)s)/%(p)s)', 'abs(%(p)s - %(q)s)/abs(%(p)s)'))
+        chk.decide(okv, 'convergence-test', 'van_leer:relative-change', node=cmp0[0] if cmp0 else vl0, file=RS, func='van_leer',
+                   detail_bad='the iteration is not left when |p - p_old|/p < tol with p_old the copy of the iterate taken at the top of the pass (found `%s`)' % (U(cmp0[0]) if cmp0 else None),
+                   detail_ok='|p - p_old|/p < tol')
+    # declare('<type>', k) hands back k values: unpacked into exactly k names (a mismatch raises in pure Python and declares the wrong variables when transpiled)
+    for fname_, fdef_ in sorted(funcs.items()):
+        for a_ in ast.walk(fdef_):
+            if isinstance(a_, ast.Assign) and isinstance(a_.value, ast.Call) and M.call_name(a_.value) == 'declare' and len(a_.value.args) == 2 and isinstance(a_.value.args[1], ast.Constant):
+                nt_ = len(a_.targets[0].elts) if isinstance(a_.targets[0], ast.Tuple) else 1
+                if nt_ != a_.value.args[1].value:
+                    chk.violated('call-arity', '%s:declare@%d' % (fname_, a_.lineno), node=a_, file=RS, func=fname_,
+                                 detail='`%s` unpacks %s declared values into %d names' % (U(a_)[:60], a_.value.args[1].value, nt_))
         # positivity floor (where the solver has one)
     vl = funcs.get('van_leer')
     if vl is not None:
